@@ -277,6 +277,27 @@ void shrink_case(Case &c, const std::string &key, int failing_alt) {
                 if (reproduces(t2, key)) c = t2;
             }
         }
+    // argument shrinking: simpler values where the violation does not need the complicated ones
+    for (size_t t = 0; t < c.plans.size(); ++t)
+        for (size_t k = 0; k < c.plans[t].steps.size() && runs < 500 && shrink_time_left(); ++k) {
+            Step &st0 = c.plans[t].steps[k];
+            if ((st0.op == OP_PARAM || st0.op == OP_PARAM_EDIT) && !st0.s.empty()) {
+                size_t di = st0.op == OP_PARAM ? 2 : 0;
+                if (di < st0.s.size() && st0.s[di].size() > 3) {
+                    Case t2 = c; t2.plans[t].steps[k].s[di] = st0.s[di].substr(0, 1); ++runs;
+                    if (reproduces(t2, key)) c = t2;
+                }
+            }
+            Step &st1 = c.plans[t].steps[k];
+            if (st1.op == OP_PARAM && st1.s.size() > 3) { // string values: shorten each to one character
+                Case t2 = c; bool changed = false;
+                for (size_t q = 3; q < st1.s.size(); ++q) if (st1.s[q].size() > 1) { t2.plans[t].steps[k].s[q] = st1.s[q].substr(0, 1); changed = true; }
+                if (changed) { ++runs; if (reproduces(t2, key)) c = t2; }
+            }
+            Step &st2 = c.plans[t].steps[k];
+            if ((st2.op == OP_FRAME_BUILD && st2.i.size() > 2 && st2.i[2] != 1)) { Case t2 = c; t2.plans[t].steps[k].i[2] = 1; ++runs; if (reproduces(t2, key)) c = t2; }
+            if ((st2.op == OP_COL_POINT || st2.op == OP_COL_ANALOG) && st2.i.size() > 1 && st2.i[1] != 1) { Case t2 = c; t2.plans[t].steps[k].i[1] = 1; ++runs; if (reproduces(t2, key)) c = t2; }
+        }
     if (c.epochs > 2) { Case t2 = c; t2.epochs = 2; ++runs; if (reproduces(t2, key)) c = t2; }
     c.plans[0].notes.push_back("minimised in " + tos(runs) + " re-runs under key " + key);
 }
